@@ -261,26 +261,27 @@ func (r *Run) oracleC05() {
 // has been processed.
 func (r *Run) slotCandidates(s int) []uint64 {
 	st := r.srcs[s]
-	var sure, maybe []uint64
-	for k, id := range st.lastSub {
-		if strings.HasSuffix(k, "?") {
-			maybe = append(maybe, id)
-		} else {
-			sure = append(sure, id)
-		}
-	}
-	// a "maybe" that is older than the same client's last sure submission is irrelevant
-	var out []uint64
-	out = append(out, sure...)
-	for _, m := range maybe {
-		out = append(out, m)
-	}
 	var init uint64
 	if st.spec.Init != nil {
 		init = st.spec.Init.ID
 	}
-	if len(sure) == 0 {
-		out = append(out, init)
+	set := map[uint64]bool{}
+	anySure := false
+	for _, ss := range st.subs {
+		if ss.has {
+			set[ss.sure] = true
+			anySure = true
+		}
+		for _, m := range ss.maybes {
+			set[m] = true
+		}
+	}
+	if !anySure {
+		set[init] = true
+	}
+	var out []uint64
+	for id := range set {
+		out = append(out, id)
 	}
 	sort.Slice(out, func(a, b int) bool { return out[a] < out[b] })
 	return out
